@@ -59,3 +59,306 @@ Definition R09 (g : N) : list pstate :=
   reach pstate pact pstate_eqb hash_p (pnext g) (allowed safe09 g) 200 (proj g init_state) (acts09 g).
 
 Definition check09 (g : N) : bool := check_group lops09 [P1] safe09 expect09 R09 g.
+
+(* ------------------------------------------------------------------ the reachable sets are closed *)
+Lemma check09_all : forallb check09 all_groups = true.
+Proof. vm_compute. reflexivity. Qed.
+
+Lemma CHK09 : forall g, In g all_groups -> check09 g = true.
+Proof. intros g H. pose proof check09_all as A. rewrite forallb_forall in A. auto. Qed.
+
+Lemma GRP09 : forallb (fun o => existsb (N.eqb (lgroup o)) all_groups) lops09 = true.
+Proof. vm_compute. reflexivity. Qed.
+
+Definition Good09 : state -> Prop := Good R09.
+Definition InvG09 (g : N) (t : pstate) : Prop := InvG R09 g t.
+
+(* closure, stated: every admitted action of the alphabet maps the checked set of a group into itself *)
+Lemma reachable_closed : forall g t a, In g all_groups -> InvG09 g t -> In a (acts09 g) ->
+  allowed safe09 g t a = true -> InvG09 g (pnext g t a).
+Proof.
+  intros g t a Hg I Ha Al. unfold InvG09, InvG.
+  eapply inv_step; [apply pstate_eqb_eq | apply (CHK09 g Hg) | exact I | exact Ha | exact Al].
+Qed.
+Lemma reachable_init : forall g, In g all_groups -> InvG09 g (proj g init_state).
+Proof. intros g Hg. eapply inv_init. apply (CHK09 g Hg). Qed.
+Lemma reachable_counts :
+  map (fun g => length (R09 g)) all_groups = [3; 8; 8; 9; 8; 10; 8; 8]%nat.
+Proof. vm_compute. reflexivity. Qed.
+
+(* ------------------------------------------------------------------ events *)
+Definition table_in (T : table) (l : list table) : bool := existsb (table_eqb T) l.
+
+Definition ev_in09 (e : event) : bool :=
+  match e with
+  | Read T a n => lop_in lops09 (LGet T a n)
+  | Has T a n => lop_in lops09 (LHas T a n)
+  | Init k T => lop_in lops09 (LInit k T)
+  | Import _ => true
+  | Calc _ T => table_in T c09_tables
+  | New T => table_eqb T P1
+  | Parse _ | Pickle _ _ => true
+  | SetA _ _ _ | Mut _ _ _ => false
+  end.
+
+(* the side condition: an init whose group is still pending is admitted only if it is not in the lists *)
+Definition safe_ev09 (s : state) (e : event) : bool :=
+  match e with
+  | Init k T => safe_at safe09 s (LInit k T)
+  | _ => true
+  end.
+
+(* what the property says about one observation *)
+Definition expected09 (e : event) (oc : outcome) : bool :=
+  match e with
+  | Read Pub a n => outcome_eqb oc OSame
+  | Has Pub a n => outcome_eqb oc (OBool (is_val (canon a n)))
+  | Calc _ Pub => outcome_eqb oc OSame
+  | Import _ => outcome_eqb oc OOk
+  | Init _ Pub => outcome_eqb oc OOk
+  | _ => true
+  end.
+
+Lemma calc_reads_in : forall c T a n p, table_in T c09_tables = true -> In (a, n, p) (calc_reads c) ->
+  lop_in lops09 (LGet T a n) = true.
+Proof.
+  intros c T a n p HT H.
+  assert (T = Pub \/ T = P1) as [E|E] by (destruct T; simpl in HT; try discriminate; auto); subst T;
+    destruct c; simpl in H;
+    repeat (destruct H as [H|H]; [inversion H; subst; vm_compute; reflexivity|]); contradiction.
+Qed.
+
+Lemma import_reads_in : forall m a n p, In (a, n, p) (import_reads m) -> lop_in lops09 (LGet Pub a n) = true.
+Proof.
+  intros m a n p H. unfold import_reads in H.
+  destruct (find (fun p0 => String.eqb (fst p0) m) import_calls) as [q|]; [|contradiction].
+  apply in_concat in H. destruct H as [l [Hl Hin]]. apply in_map_iff in Hl. destruct Hl as [c [Hc _]].
+  subst l. destruct (String.eqb c "neutron_sld"); [|destruct (String.eqb c "xray_sld")]; simpl in Hin;
+    repeat (destruct Hin as [Hin|Hin]; [inversion Hin; subst; vm_compute; reflexivity|]); contradiction.
+Qed.
+
+Lemma lget_safe : forall T a n s, safe_at safe09 s (LGet T a n) = true.
+Proof. reflexivity. Qed.
+
+Lemma exists_after_apply : forall s o T, exists_tab s T = true -> exists_tab (fst (apply s o)) T = true.
+Proof.
+  intros s o T E. unfold apply. destruct (exists_tab s (ltable o)); auto.
+  destruct (lrun o (base_of s (lgroup o)) (comp s (lgroup o))). simpl. destruct T; auto.
+Qed.
+
+Lemma step_good09 : forall s e, Good09 s -> ev_in09 e = true -> safe_ev09 s e = true ->
+  Good09 (fst (step s e)) /\ expected09 e (snd (step s e)) = true.
+Proof.
+  intros s e G I S. unfold Good09 in *.
+  destruct e as [T a n|T a n|T a n|T a n|m|c T|k T|T|T|T a]; simpl in I; try discriminate; simpl step.
+  - (* Read *)
+    split. { apply (apply_good lops09 [P1] safe09 expect09 R09 CHK09); auto. }
+    destruct T; simpl; auto.
+    apply (apply_expect lops09 [P1] safe09 expect09 R09 CHK09 GRP09 s (LGet Pub a n)); auto.
+  - (* Has *)
+    split. { apply (apply_good lops09 [P1] safe09 expect09 R09 CHK09); auto. }
+    destruct T; simpl; auto.
+    apply (apply_expect lops09 [P1] safe09 expect09 R09 CHK09 GRP09 s (LHas Pub a n)); auto.
+  - (* Import *)
+    assert (Hr : forall a n p, In (a, n, p) (import_reads m) ->
+                 lop_in lops09 (LGet Pub a n) = true /\ (forall s', safe_at safe09 s' (LGet Pub a n) = true)
+                 /\ forall t oc, expect09 t (LGet Pub a n) oc = true -> oc = OSame).
+    { intros a n p H. split; [eapply import_reads_in; eauto|]. split; [reflexivity|].
+      intros t oc X. apply outcome_eqb_eq in X. exact X. }
+    pose proof (do_reads_good lops09 [P1] safe09 expect09 R09 CHK09 (import_reads m) s Pub OSame G
+                  (fun a n p H => conj (proj1 (Hr a n p H)) (proj1 (proj2 (Hr a n p H))))) as G1.
+    pose proof (do_reads_same lops09 [P1] safe09 expect09 R09 CHK09 GRP09 (import_reads m) s Pub G eq_refl Hr) as O1.
+    destruct (do_reads s Pub (import_reads m) OSame) as [s1 o]. simpl in *. subst o. simpl. auto.
+  - (* Calc *)
+    destruct (exists_tab s T) eqn:E; [|split; [exact G| destruct T; reflexivity]].
+    assert (Hr : forall a n p, In (a, n, p) (calc_reads c) ->
+                 lop_in lops09 (LGet T a n) = true /\ (forall s', safe_at safe09 s' (LGet T a n) = true)).
+    { intros a n p H. split; [eapply calc_reads_in; eauto|reflexivity]. }
+    split. { apply (do_reads_good lops09 [P1] safe09 expect09 R09 CHK09); auto. }
+    destruct T; simpl; auto.
+    rewrite (do_reads_same lops09 [P1] safe09 expect09 R09 CHK09 GRP09 (calc_reads c) s Pub G E); auto.
+    intros a n p H. destruct (Hr a n p H) as [H1 H2]. split; auto. split; auto.
+    intros t oc X. apply outcome_eqb_eq in X. exact X.
+  - (* Init *)
+    split. { apply (apply_good lops09 [P1] safe09 expect09 R09 CHK09); auto. }
+    destruct T; simpl; auto.
+    apply (apply_expect lops09 [P1] safe09 expect09 R09 CHK09 GRP09 s (LInit k Pub)); auto.
+  - (* New *)
+    apply table_eqb_eq in I. subst T.
+    destruct (exists_tab s P1) eqn:E; [split; [exact G|reflexivity]|].
+    split; [|reflexivity].
+    apply (new_good lops09 [P1] safe09 expect09 R09 CHK09); simpl; auto.
+  - destruct (exists_tab s T); split; auto.
+  - destruct (exists_tab s T); split; auto.
+Qed.
+
+Fixpoint safe_run09 (s : state) (h : list event) : Prop :=
+  match h with
+  | [] => True
+  | e :: r => safe_ev09 s e = true /\ safe_run09 (fst (step s e)) r
+  end.
+Fixpoint all_expected09 (h : list event) (os : list outcome) : bool :=
+  match h, os with
+  | [], [] => true
+  | e :: r, o :: q => expected09 e o && all_expected09 r q
+  | _, _ => false
+  end.
+
+Lemma run_good09 : forall h s, Good09 s -> forallb ev_in09 h = true -> safe_run09 s h ->
+  all_expected09 h (run s h) = true.
+Proof.
+  induction h as [|e r IH]; intros s G I S; simpl; auto.
+  simpl in I. apply andb_true_iff in I. destruct I as [I1 I2]. destruct S as [S1 S2].
+  destruct (step_good09 s e G I1 S1) as [G1 X1].
+  destruct (step s e) as [s1 o] eqn:St. simpl in *. rewrite X1. simpl. apply IH; auto.
+Qed.
+
+(* the partial theorem: over the whole C09 alphabet (public reads / hasattr / imports / calculators /
+   init(elements), creation of one private table and every init on it and reads of it), as long as no init
+   of the lists `public_unsafe` / `private_unsafe` is issued while its group is still pending, every
+   observation of the public table is the canonical one *)
+Theorem histories_canonical_partial : forall h,
+  forallb ev_in09 h = true -> safe_run09 init_state h -> all_expected09 h (run init_state h) = true.
+Proof.
+  intros h I S. apply run_good09; auto. unfold Good09.
+  apply (good_init lops09 [P1] safe09 expect09 R09 CHK09).
+Qed.
+
+(* the events of the property's own quantifier, without the refuted one *)
+Definition public_event (e : event) : bool :=
+  match e with
+  | Read Pub a n => str_in n known_names
+  | Has Pub a n => str_in n known_names
+  | Import _ => true
+  | Calc _ Pub => true
+  | Init k Pub => str_in k init_keys && negb (str_in k public_unsafe)
+  | _ => false
+  end.
+Definition public_lazy (h : list event) : Prop := forallb public_event h = true.
+
+Lemma str_in_In : forall s l, str_in s l = true -> In s l.
+Proof.
+  intros s l H. unfold str_in in H. apply existsb_exists in H. destruct H as [x [I E]].
+  apply String.eqb_eq in E. subst. auto.
+Qed.
+Lemma In_lop_in : forall o, In o lops09 -> lop_in lops09 o = true.
+Proof.
+  intros o H. unfold lop_in. apply existsb_exists. exists o. split; auto.
+  destruct o; simpl; rewrite ?table_eqb_refl, ?String.eqb_refl; try (destruct a; reflexivity); reflexivity.
+Qed.
+
+Lemma known_get : forall T a n, table_in T c09_tables = true -> str_in n known_names = true ->
+  lop_in lops09 (LGet T a n) = true /\ lop_in lops09 (LHas T a n) = true.
+Proof.
+  intros T a n HT Hn. apply str_in_In in Hn.
+  assert (HT' : In T c09_tables) by (destruct T; simpl in HT; try discriminate; simpl; auto).
+  assert (Ha : In a all_atoms) by (destruct a; simpl; auto 12).
+  assert (X : forall o, In o [LGet T a n; LHas T a n] -> In o lops09).
+  { intros o Ho. unfold lops09. apply in_or_app. left.
+    apply in_concat. eexists. split; [apply in_map_iff; exists T; split; [reflexivity|exact HT']|].
+    apply in_concat. eexists. split; [apply in_map_iff; exists a; split; [reflexivity|exact Ha]|].
+    apply in_concat. eexists. split; [apply in_map_iff; exists n; split; [reflexivity|exact Hn]|]. exact Ho. }
+  split; apply In_lop_in, X; simpl; auto.
+Qed.
+Lemma known_init : forall T k, table_in T c09_tables = true -> str_in k init_keys = true ->
+  lop_in lops09 (LInit k T) = true.
+Proof.
+  intros T k HT Hk. apply str_in_In in Hk.
+  assert (HT' : In T c09_tables) by (destruct T; simpl in HT; try discriminate; simpl; auto).
+  apply In_lop_in. unfold lops09. apply in_or_app. right.
+  apply in_concat. eexists. split; [apply in_map_iff; exists T; split; [reflexivity|exact HT']|].
+  apply in_map. exact Hk.
+Qed.
+
+Lemma public_event_ok : forall e, public_event e = true -> ev_in09 e = true /\ forall s, safe_ev09 s e = true.
+Proof.
+  intros e H. destruct e as [T a n|T a n|T a n|T a n|m|c T|k T|T|T|T a]; simpl in H; try discriminate;
+    try (destruct T; try discriminate).
+  - split; [apply known_get; auto|reflexivity].
+  - split; [apply known_get; auto|reflexivity].
+  - split; reflexivity.
+  - split; reflexivity.
+  - apply andb_true_iff in H. destruct H as [H1 H2]. split; [apply known_init; auto|].
+    intros s. simpl. unfold safe_at, safe09. apply negb_true_iff in H2. rewrite H2.
+    rewrite andb_false_r. reflexivity.
+Qed.
+
+Lemma public_safe_run : forall h s, forallb public_event h = true -> safe_run09 s h.
+Proof.
+  induction h as [|e r IH]; intros s H; simpl; auto.
+  simpl in H. apply andb_true_iff in H. destruct H as [H1 H2]. split; [apply public_event_ok; auto|auto].
+Qed.
+
+(* C09, for every history of the property's quantifier except a first-touch `init_spectral_lines(elements)` *)
+Theorem public_histories_canonical : forall h, public_lazy h -> all_expected09 h (run init_state h) = true.
+Proof.
+  intros h H. apply histories_canonical_partial.
+  - apply forallb_forall. intros e He. unfold public_lazy in H. rewrite forallb_forall in H.
+    apply public_event_ok; auto.
+  - apply public_safe_run; auto.
+Qed.
+
+(* in particular: every read is the canonical one *)
+Lemma all_expected_nth : forall h os i e o, all_expected09 h os = true ->
+  nth_error h i = Some e -> nth_error os i = Some o -> expected09 e o = true.
+Proof.
+  induction h as [|e0 r IH]; intros os i e o A He Ho; destruct os as [|o0 q]; simpl in A; try discriminate;
+    destruct i; simpl in *; try discriminate.
+  - inversion He; inversion Ho; subst. apply andb_true_iff in A. apply A.
+  - apply andb_true_iff in A. eapply IH; eauto. apply A.
+Qed.
+Theorem public_reads_canonical : forall h i a n o, public_lazy h ->
+  nth_error h i = Some (Read Pub a n) -> nth_error (run init_state h) i = Some o -> o = OSame.
+Proof.
+  intros h i a n o H He Ho. pose proof (public_histories_canonical h H) as A.
+  pose proof (all_expected_nth _ _ _ _ _ A He Ho) as X. simpl in X. apply outcome_eqb_eq in X. exact X.
+Qed.
+
+(* ------------------------------------------------------------------ where the faithful model breaks *)
+Definition with_p1 (h : list event) : list event := (New P1 :: Init "density.init" P1 :: h)%list.
+
+(* full-strength statement (every init(elements) admitted) is false *)
+Theorem direct_init_refuted :
+  exists h, forallb (fun e => match e with Init k Pub => str_in k init_keys | _ => public_event e end) h = true
+            /\ all_expected09 h (run init_state h) = false.
+Proof.
+  exists [Init "xsf.init_spectral_lines" Pub; Read Pub E1 "K_alpha_units"]. split; vm_compute; reflexivity.
+Qed.
+Theorem direct_init_witness :
+  run init_state [Init "xsf.init_spectral_lines" Pub; Read Pub E1 "K_alpha_units"; Read Pub E0 "K_beta1_units";
+                  Read Pub E1 "K_alpha"]
+  = [OOk; OErr AttrErr; OErr AttrErr; OSame].
+Proof. vm_compute. reflexivity. Qed.
+
+(* init(private) before the public first touch: the four loaders that break the public table *)
+Theorem private_first_refuted :
+  forall k, In k private_unsafe ->
+  exists a n, forallb ev_in09 (with_p1 [Init k P1; Read Pub a n]) = true
+              /\ all_expected09 (with_p1 [Init k P1; Read Pub a n])
+                                (run init_state (with_p1 [Init k P1; Read Pub a n])) = false.
+Proof.
+  intros k H. simpl in H.
+  destruct H as [H|[H|[H|[H|[]]]]]; subst k.
+  - exists E1, "neutron". split; vm_compute; reflexivity.
+  - exists E1, "covalent_radius". split; vm_compute; reflexivity.
+  - exists E1, "crystal_structure". split; vm_compute; reflexivity.
+  - exists E1, "K_alpha". split; vm_compute; reflexivity.
+Qed.
+Theorem private_first_witnesses :
+  run init_state (with_p1 [Init "nsf.init" P1; Read Pub E1 "neutron"]) = [OOk; OOk; OOk; ODiff]
+  /\ run init_state (with_p1 [Init "covalent_radius.init" P1; Read Pub E1 "covalent_radius"]) = [OOk; OOk; OOk; ODiff]
+  /\ run init_state (with_p1 [Init "crystal_structure.init" P1; Read Pub E1 "crystal_structure"]) = [OOk; OOk; OOk; OErr AttrErr]
+  /\ run init_state (with_p1 [Init "xsf.init_spectral_lines" P1; Read Pub E1 "K_alpha"]) = [OOk; OOk; OOk; OErr AttrErr].
+Proof. repeat split; vm_compute; reflexivity. Qed.
+
+(* the other private inits are harmless at any time (they are admitted by the partial theorem) *)
+Theorem private_safe_keys : forall k, In k init_keys -> ~ In k private_unsafe -> forall t, safe09 t (LInit k P1) = true.
+Proof.
+  intros k Hk Hn t. unfold safe09.
+  destruct (str_in k private_unsafe) eqn:E; [apply str_in_In in E; contradiction|].
+  rewrite andb_false_r. reflexivity.
+Qed.
+
+(* the scripts only mention names of their own group (the state is kept per group) *)
+Theorem scripts_are_local : scripts_local = true.
+Proof. vm_compute. reflexivity. Qed.
